@@ -98,7 +98,7 @@ func ruleCodecRoutes(w *World, r *Report, pkg *ssa.Package, tag string) {
 		r.Check(len(ks) == 1 && ks[0] == rd.codec, rule, fnName(fn), w.Pos(fn.Pos()), rd.fn+" decodes with "+rd.codec, fmt.Sprintf("%s decodes with %v, expected exactly %s", rd.fn, ks, rd.codec))
 	}
 	// the shared unmarshal: the document is what the codec produced, converted by NewJsonNode
-	if um := pkg.Func("unmarshal"); um != nil {
+	if um := w.FuncOpt(pkg, "unmarshal"); um != nil {
 		r.Fn(fnName(um))
 		okc := false
 		allInstrs(um, func(in ssa.Instruction) {
@@ -502,7 +502,7 @@ func ruleRawArg(w *World, r *Report, pkg *ssa.Package) {
 				return
 			}
 			sf := staticCallee(c)
-			if sf == nil || fnPkg(sf) != pkg.Pkg || (sf.Name() != "renderJson" && sf.Name() != "renderYaml") {
+			if sf == nil || fnPkg(sf) != pkg.Pkg || (!w.helperIs(sf, "renderJson") && !w.helperIs(sf, "renderYaml")) {
 				return
 			}
 			n++
@@ -521,5 +521,145 @@ func ruleRawArg(w *World, r *Report, pkg *ssa.Package) {
 	}
 	if n < 10 {
 		r.Bad(rule, "v2:instance-floor", "-", fmt.Sprintf("only %d calls of renderJson/renderYaml found", n))
+	}
+}
+
+// ruleRawInput: the document readers hand the decoder the input bytes
+// themselves. Between the exported Read{Json,Yaml}{String,File} entry points
+// and the decoder call (encoding/json or yaml.v2 Unmarshal, directly or
+// through a decoder passed as a function value) the bytes may only be
+// converted (string <-> []byte) or read from the named file; trimming,
+// re-slicing or rewriting them changes what the decoder sees (YAML block
+// scalars keep or lose trailing line breaks, JSON and YAML readers part ways).
+func ruleRawInput(w *World, r *Report, pkg *ssa.Package, tag string) {
+	const rule = "R-RAWINPUT"
+	entries := []*ssa.Function{}
+	for _, n := range []string{"ReadJsonString", "ReadYamlString", "ReadJsonFile", "ReadYamlFile"} {
+		if f := pkg.Func(n); f != nil {
+			entries = append(entries, f)
+		}
+	}
+	if len(entries) < 4 {
+		infra("R-RAWINPUT: document readers not found in %s", pkg.Pkg.Path())
+	}
+	// scope: entries and the unexported functions they reach by static calls
+	scope := []*ssa.Function{}
+	seen := map[*ssa.Function]bool{}
+	work := append([]*ssa.Function{}, entries...)
+	for _, e := range entries {
+		seen[e] = true
+	}
+	for len(work) > 0 {
+		f := work[0]
+		work = work[1:]
+		scope = append(scope, f)
+		allInstrs(f, func(in ssa.Instruction) {
+			c, ok := in.(ssa.CallInstruction)
+			if !ok {
+				return
+			}
+			sf := staticCallee(c)
+			if sf == nil || sf.Blocks == nil || fnPkg(sf) != pkg.Pkg || seen[sf] {
+				return
+			}
+			if obj, _ := sf.Object().(*types.Func); obj == nil || obj.Exported() {
+				return
+			}
+			seen[sf] = true
+			work = append(work, sf)
+		})
+	}
+	isBytes := func(t types.Type) bool {
+		sl, ok := t.Underlying().(*types.Slice)
+		return ok && isByteType(sl.Elem())
+	}
+	// raw(v): v is the function's own input (parameter, possibly converted)
+	// or the content of the file it was told to read; returns the parameter
+	// index it forwards (-1: file content / none)
+	raw := func(fn *ssa.Function, v ssa.Value) (bool, int) {
+		for {
+			switch x := v.(type) {
+			case *ssa.Convert:
+				v = x.X
+				continue
+			case *ssa.ChangeType:
+				v = x.X
+				continue
+			}
+			break
+		}
+		if p, ok := v.(*ssa.Parameter); ok && p.Parent() == fn {
+			for i, q := range fn.Params {
+				if q == p {
+					return true, i
+				}
+			}
+		}
+		if ex, ok := v.(*ssa.Extract); ok && ex.Index == 0 {
+			if c, ok := ex.Tuple.(*ssa.Call); ok {
+				switch calleeFullName(c) {
+				case "io/ioutil.ReadFile", "os.ReadFile", "io/ioutil.ReadAll", "io.ReadAll":
+					return true, -1
+				}
+			}
+		}
+		return false, -1
+	}
+	// forwarding[fn][i]: parameter i of fn reaches a decoder unchanged
+	forwarding := map[*ssa.Function]map[int]bool{}
+	nSites := 0
+	for round := 0; round < 4; round++ {
+		for _, fn := range scope {
+			ord := 0
+			allInstrs(fn, func(in ssa.Instruction) {
+				c, ok := in.(*ssa.Call)
+				if !ok || len(c.Call.Args) == 0 {
+					return
+				}
+				var arg ssa.Value
+				what := ""
+				switch name := calleeFullName(c); {
+				case name == "encoding/json.Unmarshal" || name == "gopkg.in/yaml.v2.Unmarshal":
+					arg, what = c.Call.Args[0], name
+				case name == "dynamic":
+					if p, ok := c.Call.Value.(*ssa.Parameter); ok && len(c.Call.Args) == 2 && isBytes(c.Call.Args[0].Type()) {
+						arg, what = c.Call.Args[0], "the decoder passed as "+p.Name()
+					}
+				default:
+					sf := staticCallee(c)
+					if sf == nil || forwarding[sf] == nil {
+						return
+					}
+					for i := range forwarding[sf] {
+						if i < len(c.Call.Args) {
+							arg, what = c.Call.Args[i], fnName(sf)
+						}
+					}
+				}
+				if arg == nil {
+					return
+				}
+				ord++
+				okRaw, pi := raw(fn, arg)
+				if okRaw && pi >= 0 {
+					if forwarding[fn] == nil {
+						forwarding[fn] = map[int]bool{}
+					}
+					forwarding[fn][pi] = true
+				}
+				if round == 3 {
+					nSites++
+					r.Check(okRaw, rule, fmt.Sprintf("%s:input#%d", fnName(fn), ord), w.Pos(c.Pos()),
+						"the bytes handed to "+what+" are the reader's own input (converted at most)",
+						"the bytes handed to "+what+" are not the reader's input itself ("+valueName(strip(arg))+"): the document is altered before it is decoded")
+				}
+			})
+		}
+	}
+	for _, fn := range scope {
+		r.Fn(fnName(fn))
+	}
+	if nSites < 3 {
+		r.Bad(rule, tag+":instance-floor", "-", fmt.Sprintf("only %d decoder input sites found behind the document readers", nSites))
 	}
 }
